@@ -329,7 +329,8 @@ def generate_for_type(
     visited: List[str],
 ):
     if type_def is None:
-        yield (True, None)
+        # The message declares no such member (e.g. no params): leave it out.
+        yield (True, Ignore())
     elif type_def.kind == "base":
         yield from generate_for_base(type_def.name)
     elif type_def.kind == "array":
